@@ -27,16 +27,17 @@ VARIABLES ti,       \* next line of Rec
           found,    \* violations found so far: [p, s, x, ln]
           drifts,   \* first non-conforming line per execution: [x, ln]
           okx,      \* executions that conformed to the end
+          ndrift,   \* number of executions that left the model (drifts keeps only the first MaxDrifts)
           hits      \* per property: [ev |-> rule evaluations, ex |-> executions with at least one, cur |-> hit in this execution]
 
-tvars == <<vars, ti, xi, conform, exp, found, drifts, okx, hits>>
+tvars == <<vars, ti, xi, conform, exp, found, drifts, okx, ndrift, hits>>
 
 Props == {"C01", "C02", "C03", "C04", "C05", "C06", "C07", "C08", "C09", "C10", "C11", "C12", "C13", "C16", "C17"}
 
 TInit ==
   /\ sid = 0 /\ hw = <<>> /\ hr = <<>> /\ th = <<>> /\ kf = <<>> /\ val = <<>> /\ pflag = <<>> /\ killed = <<>> /\ nops = 0
   /\ mon = [viol |-> {}] /\ hist = <<>> /\ last = <<>>
-  /\ ti = 1 /\ xi = 0 /\ conform = FALSE /\ exp = <<>> /\ found = {} /\ drifts = {} /\ okx = 0
+  /\ ti = 1 /\ xi = 0 /\ conform = FALSE /\ exp = <<>> /\ found = {} /\ drifts = {} /\ okx = 0 /\ ndrift = 0
   /\ hits = [p \in Props |-> [ev |-> 0, ex |-> 0, cur |-> FALSE]]
 
 ResetTo(s) ==
@@ -54,8 +55,11 @@ ResetTo(s) ==
 
 Model == <<sid, hw, hr, th, kf, val, pflag, killed, nops>>
 
+MaxPerSig == 3
+MaxDrifts == 300
 Drift == /\ conform' = FALSE
-         /\ drifts' = drifts \cup {[x |-> xi, ln |-> ti]}
+         /\ drifts' = IF Cardinality(drifts) < MaxDrifts THEN drifts \cup {[x |-> xi, ln |-> ti]} ELSE drifts
+         /\ ndrift' = ndrift + 1
          /\ exp' = <<>>
          /\ UNCHANGED Model
 
@@ -68,11 +72,11 @@ TNext ==
   /\ ti' = ti + 1
   /\ UNCHANGED <<hist, last>>
   /\ LET ev == Rec[ti] IN
-     IF ev.e = "scen" THEN UNCHANGED <<Model, mon, xi, conform, exp, found, drifts, okx, hits>>
+     IF ev.e = "scen" THEN UNCHANGED <<Model, mon, xi, conform, exp, found, drifts, ndrift, okx, hits>>
      ELSE IF ev.e = "hdr"
      THEN /\ ResetTo(ev.sn)
           /\ xi' = xi + 1 /\ conform' = TRUE /\ exp' = <<>>
-          /\ UNCHANGED <<found, drifts, okx>>
+          /\ UNCHANGED <<found, drifts, ndrift, okx>>
           /\ hits' = [p \in Props |-> [hits[p] EXCEPT !.cur = FALSE]]
      ELSE
        LET d  == D(sid)
@@ -82,23 +86,27 @@ TNext ==
           hits' = [p \in Props |-> IF p \in h
                      THEN [ev |-> hits[p].ev + 1, ex |-> IF hits[p].cur THEN hits[p].ex ELSE hits[p].ex + 1, cur |-> TRUE]
                      ELSE hits[p]]
-       /\ found' = found \cup {[p |-> v.p, s |-> v.s, x |-> xi, ln |-> ti] : v \in (m1.viol \ mon.viol)}
+       \* at most MaxPerSig records per (property, signature): the set stays small however many
+       \* executions of a shard exhibit the same finding
+       /\ found' = found \cup {[p |-> v.p, s |-> v.s, x |-> xi, ln |-> ti] :
+                                v \in {w \in (m1.viol \ mon.viol) :
+                                         Cardinality({f \in found : f.p = w.p /\ f.s = w.s}) < MaxPerSig}}
        /\ xi' = xi
-       /\ IF ~conform \/ ev.e \in InfoEvents THEN UNCHANGED <<Model, conform, exp, drifts>>
+       /\ IF ~conform \/ ev.e \in InfoEvents THEN UNCHANGED <<Model, conform, exp, drifts, ndrift>>
           ELSE IF exp # <<>>
           THEN IF Head(exp) = ev
-               THEN exp' = Tail(exp) /\ UNCHANGED <<Model, conform, drifts>>
+               THEN exp' = Tail(exp) /\ UNCHANGED <<Model, conform, drifts, ndrift>>
                ELSE Drift
           ELSE IF ev.e = "end"
-          THEN IF AllDone THEN UNCHANGED <<Model, conform, exp, drifts>> ELSE Drift
+          THEN IF AllDone THEN UNCHANGED <<Model, conform, exp, drifts, ndrift>> ELSE Drift
           ELSE IF ev.e = "deadlock"    \* the scheduler found nobody runnable: the model must agree
-          THEN IF ModelStuck THEN UNCHANGED <<Model, conform, exp, drifts>> ELSE Drift
+          THEN IF ModelStuck THEN UNCHANGED <<Model, conform, exp, drifts, ndrift>> ELSE Drift
           ELSE IF "t" \in DOMAIN ev /\ ev.t \in Threads(d) /\ StepEnabled(d, ev.t)
           THEN LET ns == StepOf(d, ev.t) IN
                IF ns.S.evs # <<>> /\ Head(ns.S.evs) = ev
                THEN /\ Apply(d, ev.t, ns) /\ sid' = sid
                     /\ exp' = Tail(ns.S.evs)
-                    /\ UNCHANGED <<conform, drifts>>
+                    /\ UNCHANGED <<conform, drifts, ndrift>>
                ELSE Drift
           ELSE Drift
        /\ okx' = IF Terminal(ev) /\ conform' THEN okx + 1 ELSE okx
@@ -111,6 +119,7 @@ Report ==
     /\ \A v \in found : PrintT("VIOL " \o ToJson(v))
     /\ \A v \in drifts : PrintT(<<"DRIFT", v.x, v.ln>>)
     /\ \A p \in Props : PrintT(<<"HITS", p, hits[p].ev, hits[p].ex>>)
+    /\ PrintT(<<"NDRIFT", ndrift>>)
     /\ PrintT(<<"STATS", Len(Rec), xi, okx>>)
 
 Consumed == TLCGet("stats").diameter = Len(Rec) + 1
